@@ -526,6 +526,8 @@ C09_NoForeignAdopt == OkS(job.ex => \A s \in Slots : (job.refs[s].ex /\ pods[s].
 C10_SuccOnly == OkS((job.ex /\ job.result = "Success") => (IF Strategy = "AllSuccessful" THEN Idx \subseteq succ ELSE succ # {}))
 C10_FailOnly == OkS((job.ex /\ job.result = "Failed") =>
                     (IF Strategy = "AllSuccessful" THEN \E i \in Idx : ExhaustedTruth(pods, ever, succRec, i) ELSE \A i \in Idx : ExhaustedTruth(pods, ever, succRec, i)))
+\* (a Job whose task was refused for good is reported finished / AdmissionError at once although its other tasks are
+\*  alive: known finding KF-JL-admission-error-live-tasks; the design has it, hence the exemption here)
 C10_NoLiveAtFinish == [][Ok((job'.ex /\ job'.kind = "Finished" /\ job.kind # "Finished" /\ ~job'.del /\ job'.result # "AdmissionError")
                              => \A s \in Mine(pods') : ~Alive(pods'[s]))]_vars
 C11_Monotone == [][Ok((job.ex /\ job'.ex) =>
